@@ -30,10 +30,10 @@ add("C05", "E1", "property-based testing: reference-model oracle (independent se
     "Exploration: tie-free random sets of member instructions with unique markers on one member, all 12 kinds x 1-3 counterparts; an independent implementation of the precedence chain stated in the property predicts which marker each of the impls contains; adding an instruction in a free cell must leave every impl with unchanged winner token-identical; adding a default #[ghost] / #[child] / #[parent(..)] that every concerned counterpart shadows with a dedicated one must change nothing for those counterparts.",
     TB + "; the reference select() encodes the property text (fallible into_existing falls back to try_into before into)", "DESIGN.md 3/C05")
 add("C06", "E1", "property-based testing: projection metamorphic relation between two expansions",
-    "Exploration: generated inputs with 2-3 counterparts and dedicated/default instructions of every kind; impls for counterpart A in the full expansion must equal the expansion of the input projected onto A.",
+    "Exploration: generated inputs with 2-3 counterparts and dedicated/default instructions of every kind; impls for counterpart A in the full expansion must equal the expansion of the input projected onto A. Two parts: valid-by-construction inputs without repeat (a rejection that only the other counterparts' instructions cause is a violation too), and the same inputs with member-level repeat / skip_repeat / stop_repeat blocks laid over them (impls compared when both are accepted).",
     TB, "DESIGN.md 3/C06")
 add("C12", "E1", "property-based testing: rewrite metamorphic relation (shortcut -> basic instructions)",
-    "Exploration: every shortcut occurrence (type, member, variant, nested parent, ghost/ghosts) of a generated input is rewritten in place into the tabulated basic instructions; verdict and multiset of impl items must be equal.",
+    "Exploration: every shortcut occurrence (type, member, variant, nested parent, ghost/ghosts) of a generated input is rewritten in place into the tabulated basic instructions; verdict and multiset of impl items must be equal. A second part applies the same rewrite at token level to the instruction-selection lattice of C16 / C17, about half of whose inputs are rejected, so that accepted-or-rejected-alike is exercised on misuse (wrong ghost entry forms, missing hints, inapplicable member instructions) and not only on valid inputs.",
     TB + "; the shortcut table is transcribed from the README", "DESIGN.md 3/C12")
 add("C13", "E1", "property-based testing: rewrite metamorphic relation (three spellings of one AST)",
     "Exploration: the same generated AST rendered all-bare, each-wrapped and randomly grouped must give the same accept/reject decision and byte-identical output.",
